@@ -512,7 +512,13 @@ def search(cases, tier, log=None):
         open1 = {e["key"]: e for e in a.get("loops_on_stack", []) if e["cls"] in ("tol", "unknown")}
         open2 = {e["key"]: e for e in b.get("loops_on_stack", []) if e["cls"] in ("tol", "unknown")}
         common = [k for k in open2 if k in open1]
-        if common:
+        if common and (open2[common[-1]].get("iterations") or 0) < 10 * max(53, int(c.get("prec", 53))):
+            # evidence rule: a tolerance loop that converges geometrically (ratio up to 2^-0.1) needs up to ~10*prec iterations; a
+            # loop that was cut off before that many iterations (each one expensive) is slow, not shown to be non-terminating
+            e = open2[common[-1]]
+            undecided.append({"case": strip(c), "why": "exceeds 10x budget after only %s iterations (< 10*prec) of the %s-class loop at %s: "
+                              "slow iterations, non-termination not shown" % (e.get("iterations"), e["cls"], e["at"])})
+        elif common:
             # outermost common open loop = the one that does not exit
             k = common[-1]
             e = open2[k]
